@@ -494,7 +494,8 @@ pub fn candidates(w: &mut World, rng: &mut Rng, g: &Gen, step: usize) -> Vec<Str
         for _ in 0..weight {
             let hamt = if rng.coin(1, 40) { *rng.pick(&[u64::MAX, u64::MAX / 2 + 1, u64::MAX - nd]) } else { *rng.pick(&[nd, nd, nd / 2, nd - nd / 2, nd / 2, nd - nd / 2, nd / 3, 1000, nd + 5000, nd - 1, 2 * nd]) };
             let total = match rng.below(16) { 0 => None, 1 => Some(nd - 1), 2 => Some(amt), _ => Some(nd.max(hamt)) };
-            let (expiry, rel) = match rng.below(24) { 0 => (w.height + 100, 100i64), 1 => (w.height + 144, 144), 2 => (w.height + 143, 143), 3 => (w.height + 70_000, 70_000), 4 => (w.height + 200, -5), 5 => (w.height + 150, 150), _ => (w.height + 300 + rng.below(300) as u32, 300) };
+            let pd = w.cfg.policy_delta as u32;
+            let (expiry, rel) = match rng.below(24) { 0 => (w.height + pd.saturating_sub(44), pd as i64 - 44), 1 => (w.height + pd, pd as i64), 2 => (w.height + pd.saturating_sub(1), pd as i64 - 1), 3 => (w.height + 70_000, 70_000), 4 => (w.height + pd + 56, -5), 5 => (w.height + pd + 6, pd as i64 + 6), _ => (w.height + pd + 156 + rng.below(300) as u32, pd as i64 + 156) };
             let b11 = if rng.coin(1, 25) { 1 } else { 0 };
             let a = if rng.coin(1, 12) { if w.open { *rng.pick(&[amt + 1, amt / 2, amt / 1000]) } else { *rng.pick(&[amt / 1000, amt + 1, amt / 2]) } } else { amt };
             c.push(format!("ar:{}:{}:{}:{}:{}:{}", b11, a, hamt, expiry, rel, total.map(|t| t.to_string()).unwrap_or("-".into())));
@@ -628,7 +629,8 @@ pub fn run_case(ctx: &mut Ctx, rng: &mut Rng, sock: &str, open: bool, cfg: SCfg,
                             if probe_call.is_none() {
                                 let nd = need(&w, w.inv_amount) as u64;
                                 probe_call = Some(w.calls.len());
-                                format!("ar:0:{}:{}:{}:300:{}", w.inv_amount, nd, w.height + 400, nd)
+                                let pd = w.cfg.policy_delta as u32;
+                                format!("ar:0:{}:{}:{}:{}:{}", w.inv_amount, nd, w.height + pd + 256, pd + 156, nd)
                             } else {
                                 let pc = probe_call.unwrap();
                                 match w.calls[pc].resp.clone() {
@@ -836,6 +838,13 @@ pub fn run(mut ctx: Ctx) {
         let open = i % 4 == 3;
         let mut cfg = default_cfg();
         if i % 9 == 8 { cfg.mpp = *rng.pick(&[0u64, 1, 30]); }
+        // other policies (validated combinations only: policy delta > safety delta)
+        if i % 7 == 6 {
+            let (cd, pd) = *rng.pick(&[(10u16, 40u16), (34, 35), (100, 2016), (1, 65535), (143, 144)]);
+            cfg.cltv_delta = cd; cfg.policy_delta = pd;
+            cfg.base = *rng.pick(&[0u32, 1, 1000, 4_294_967_295]);
+            cfg.ppm = *rng.pick(&[0u32, 1, 5000, 1_000_000, 4_294_967_295]);
+        }
         let g = Gen { faults_w: i % 3 == 1, faults_r: ctx.thorough && i % 10 == 9, crashes: i % 2 == 1, lost: ctx.thorough && i % 17 == 16, replay: false, coop: None, other: i % 4 == 2, other_depth: (i / 4) % 5, hold_first: 0, select_seed: None };
         let len = 25 + rng.below(40) as usize;
         run_case(&mut ctx, &mut rng, &sock, open, cfg, vec![], len, &g);
